@@ -596,6 +596,10 @@ def build_snapshot_action(tp_id: str, args: Dict[str, str], watches: List[str]) 
         FIRE_PERIOD: args.get(FIRE_PERIOD, '1000'),
         LOG_MSG: args.get(LOG_MSG, None),
     }
+    if STAGE in args:
+        # the capture stages defer the snapshot until the line / method has completed: that is decided from the action
+        # config, so without the stage a capture tracepoint sends at once and captures nothing
+        config[STAGE] = args[STAGE]
     # the collection limits are arguments of the tracepoint like the others (text, as all arguments): without them in
     # the action config the collection always runs with the defaults
     for limit in COLLECTION_LIMITS:
